@@ -61,11 +61,35 @@ type ragg struct {
 	bodyOdd    int
 	preDefault int // evaluations with a scripted status on the response, handled by the default handler
 	preAny     int // evaluations with an error and a scripted status on the response
-	raisedAt   map[string]int
+	// the app the rule selects (under an accepted reading) answers with the default handler:
+	// the root without handler, or an app that names fiber.DefaultErrorHandler explicitly
+	defaultOK bool
+	raisedAt  map[string]int
 }
 
 func newRagg() *ragg {
 	return &ragg{ids: map[int]int{}, events: map[uint64]int{}, vios: map[string]*vioRec{}, raisedAt: map[string]int{}, curBuild: -1}
+}
+
+func newRaggFor(ts *treeSpec, rq *reqSpec) *ragg {
+	a := newRagg()
+	a.defaultOK = ts.defaultAnswers(rq.Path)
+	return a
+}
+
+// defaultAnswers: under an accepted reading of the rule the selected app's handler is the
+// (not recording) default handler.
+func (ts *treeSpec) defaultAnswers(path string) bool {
+	es := []int{ts.expected(path, false)}
+	if !ts.CaseSensitive {
+		es = append(es, ts.expected(path, true))
+	}
+	for _, e := range es {
+		if !ts.records(e) {
+			return true
+		}
+	}
+	return false
 }
 
 func (a *ragg) add(sig, what string, detail map[string]any) {
@@ -85,6 +109,7 @@ func (a *ragg) merge(b *ragg) {
 	a.bodyOdd += b.bodyOdd
 	a.preDefault += b.preDefault
 	a.preAny += b.preAny
+	a.defaultOK = a.defaultOK || b.defaultOK
 	a.flipWithin = a.flipWithin || b.flipWithin
 	for k, v := range b.ids {
 		a.ids[k] += v
@@ -186,7 +211,7 @@ func judgeEval(ts *treeSpec, rq *reqSpec, s *slot, resp *drive.Resp, build int, 
 	default:
 		// No recording handler ran. If the root has no configured handler this is the root's
 		// (default) handler by construction of the tree; otherwise look at the response.
-		if ts.Apps[0].Handler != hNone {
+		if ts.records(0) && !a.defaultOK {
 			looksDefault := false
 			if framework {
 				looksDefault = status == 404 || status == 405
@@ -247,7 +272,7 @@ func judgeEval(ts *treeSpec, rq *reqSpec, s *slot, resp *drive.Resp, build int, 
 		if mode == hOK && string(resp.Body) != "EH:"+strconv.Itoa(id) {
 			a.bodyOdd++
 		}
-	case id == idDefault && ts.Apps[0].Handler == hNone:
+	case id == idDefault && (!ts.records(0) || a.defaultOK):
 		ok := false
 		want := 0
 		if framework {
@@ -288,27 +313,28 @@ func cmpName(a, b int) string {
 	return "equal-depth"
 }
 
-// shadowClass describes the deepest handler-less mounted app whose prefix is a string prefix
-// of the path and that is at least as deep as the expected app e: the only kind of app that
+// shadowClass describes the deepest handler-less mount place whose prefix is a string prefix
+// of the path and that is at least as deep as the expected place: the only kind of app that
 // could explain why e's handler lost to a shallower one. "" if there is none.
-func (ts *treeSpec) shadowClass(e int, path string) string {
-	de := 0
-	if e > 0 {
-		de = depth(ts.Apps[e].Full)
-	}
+func (ts *treeSpec) shadowClass(e int, ep place, path string) string {
+	de := depth(ep.Full)
 	bestD, bestOn, found := -1, false, false
-	for i := 1; i < len(ts.Apps); i++ {
-		n := &ts.Apps[i]
-		if i == e || n.Handler != hNone || !strings.HasPrefix(path, n.Full) {
+	for i, pls := range ts.places() {
+		if i == 0 || i == e || ts.configured(i) {
 			continue
 		}
-		d := depth(n.Full)
-		if d < de {
-			continue
-		}
-		on := contains(n.Full, path)
-		if d > bestD || (d == bestD && on && !bestOn) {
-			bestD, bestOn, found = d, on, true
+		for _, pc := range pls {
+			if !strings.HasPrefix(path, pc.Full) {
+				continue
+			}
+			d := depth(pc.Full)
+			if d < de {
+				continue
+			}
+			on := contains(pc.Full, path)
+			if d > bestD || (d == bestD && on && !bestOn) {
+				bestD, bestOn, found = d, on, true
+			}
 		}
 	}
 	if !found {
@@ -321,54 +347,106 @@ func (ts *treeSpec) shadowClass(e int, path string) string {
 	return "handlerless-" + kind + ":" + cmpName(bestD, de)
 }
 
+func (ts *treeSpec) hasExplicitDefault() bool {
+	for i := range ts.Apps {
+		if ts.Apps[i].Handler == hExplicitDefault {
+			return true
+		}
+	}
+	return false
+}
+
 // classifyWrong names the relation between an observed handler w that the rule does not
 // select, the path and the expected app e. The rank orders classes when one request shows
 // several wrong handlers (lowest rank names the signature).
 func (ts *treeSpec) classifyWrong(w, e int, path string) (int, string) {
-	if w == idDefault && ts.Apps[0].Handler != hNone {
+	if w == idDefault && ts.records(0) {
+		if ts.hasExplicitDefault() {
+			return 41, "default-handler-of-app-not-selected"
+		}
 		return 40, "unconfigured-default-handler"
 	}
-	de := 0
-	if e > 0 {
-		de = depth(ts.Apps[e].Full)
-	}
+	_, ep := ts.expectedPlace(path, false)
+	de := depth(ep.Full)
+	slash := false
 	if w > 0 {
-		p := ts.Apps[w].Full
+		// the instance may be mounted at several places: the relation with the lowest rank
+		best, bestCls := 1000, ""
+		set := func(r int, c string) {
+			if r < best {
+				best, bestCls = r, c
+			}
+		}
+		pls := ts.places()[w]
+		anyContains := false
+		for _, pc := range pls {
+			anyContains = anyContains || contains(pc.Full, path)
+		}
+		for _, pc := range pls {
+			p := pc.Full
+			if anyContains && !contains(p, path) {
+				// the instance is a legitimate container through another of its places
+				continue
+			}
+			switch {
+			case contains(p, path):
+				switch {
+				case e > 0 && p == ep.Full:
+					set(60, "same-prefix-outer-app")
+				case depth(p) > de:
+					// a deeper legitimate container with a handler than the expected one:
+					// cannot happen unless oracle and tree disagree; keep it visible
+					set(50, "deeper-container")
+				default:
+					set(100, "") // legitimate but shallower container: named below
+					slash = slash || p == "/"
+				}
+			case strings.HasPrefix(path, p):
+				r := cmpName(depth(p), de)
+				set(20+map[string]int{"equal-depth": 0, "deeper": 1, "shallower": 2}[r], "off-boundary-prefix:"+r)
+			case contains(strings.ToLower(p), strings.ToLower(path)):
+				set(30, "case-variant-prefix")
+			default:
+				set(110, "unrelated-prefix")
+			}
+		}
 		switch {
-		case contains(p, path):
-			if e > 0 && p == ts.Apps[e].Full {
-				return 60, "same-prefix-outer-app"
-			}
-			if depth(p) > de {
-				// a deeper legitimate container with a handler than the expected one: cannot
-				// happen unless oracle and tree disagree; keep it visible
-				return 50, "deeper-container"
-			}
-		case strings.HasPrefix(path, p):
-			r := cmpName(depth(p), de)
-			return 20 + map[string]int{"equal-depth": 0, "deeper": 1, "shallower": 2}[r], "off-boundary-prefix:" + r
-		case contains(strings.ToLower(p), strings.ToLower(path)):
-			return 30, "case-variant-prefix"
-		default:
-			return 10, "unrelated-prefix"
+		case best == 110:
+			return 10, bestCls
+		case best != 100:
+			return best, bestCls
 		}
 	}
 	// the root's handler, or a legitimate but shallower container, ran instead of e's
-	if w > 0 && ts.Apps[w].Full == "/" {
+	if slash {
 		// a sub-app mounted at "/" beat a deeper prefix: named on its own whether or not a
 		// handler-less app is around (the oracle cannot tell the two causes apart)
 		return 65, "slash-mount-over-deeper-prefix"
 	}
-	if sc := ts.shadowClass(e, path); sc != "" {
+	if sc := ts.shadowClass(e, ep, path); sc != "" {
 		return 70, "shadowed-by-" + sc
 	}
-	if e > 0 && ts.Apps[e].Full != strings.ToLower(ts.Apps[e].Full) {
+	if e > 0 && ts.Apps[e].Handler == hExplicitDefault {
+		// the expected app configured the default handler by name
+		if w > 0 {
+			return 86, "outer-container-over-explicit-default-handler-app"
+		}
+		return 87, "root-over-explicit-default-handler-app"
+	}
+	if e > 0 && ep.Full != strings.ToLower(ep.Full) {
 		// the expected app's prefix contains upper-case letters and the path spells it as
 		// mounted (e is the literal-reading expectation)
 		if w > 0 {
 			return 88, "outer-container-over-mixed-case-prefix"
 		}
 		return 89, "root-over-mixed-case-prefix"
+	}
+	if e > 0 && len(ts.places()[e]) > 1 {
+		// the expected app instance is mounted at more than one place
+		if w > 0 {
+			return 84, "outer-container-over-app-mounted-twice"
+		}
+		return 85, "root-over-app-mounted-twice"
 	}
 	if w > 0 {
 		return 90, "outer-container-over-deeper-prefix"
@@ -425,10 +503,16 @@ func conclude(ts *treeSpec, rq *reqSpec, a *ragg) []finding {
 		n := id
 		name := "root"
 		switch {
-		case id == idDefault && ts.Apps[0].Handler == hNone:
+		case id == idDefault && a.defaultOK:
+			// no recording handler ran and the rule selects an app that answers with the
+			// default handler (whose it was cannot be observed)
+			name = "default-handler"
+			obs[name] = a.ids[id]
+			continue
+		case id == idDefault && !ts.records(0):
 			n = 0 // the root's handler is the default handler
 		case id == idDefault:
-			name = "default-handler(unconfigured)"
+			name = "default-handler(not selected)"
 		case id > 0:
 			name = ts.Apps[id].Full + "#" + strconv.Itoa(id)
 		}
@@ -496,7 +580,7 @@ type evalCfg struct {
 func evalTree(e *ev.Env, ts *treeSpec, reqs []reqSpec, cfg evalCfg) []*ragg {
 	aggs := make([]*ragg, len(reqs))
 	for i := range aggs {
-		aggs[i] = newRagg()
+		aggs[i] = newRaggFor(ts, &reqs[i])
 	}
 	rec := newRecorder(1)
 	s := &rec.slots[0]
@@ -525,7 +609,7 @@ func evalTree(e *ev.Env, ts *treeSpec, reqs []reqSpec, cfg evalCfg) []*ragg {
 func evalTreeRace(e *ev.Env, ts *treeSpec, reqs []reqSpec, cfg evalCfg, workers int) []*ragg {
 	aggs := make([]*ragg, len(reqs))
 	for i := range aggs {
-		aggs[i] = newRagg()
+		aggs[i] = newRaggFor(ts, &reqs[i])
 	}
 	for b := 0; b < cfg.builds; b++ {
 		rec := newRecorder(workers)
@@ -540,7 +624,7 @@ func evalTreeRace(e *ev.Env, ts *treeSpec, reqs []reqSpec, cfg evalCfg, workers 
 			w := w
 			part[w] = make([]*ragg, len(reqs))
 			for i := range part[w] {
-				part[w][i] = newRagg()
+				part[w][i] = newRaggFor(ts, &reqs[i])
 			}
 			wg.Add(1)
 			go func() {
@@ -627,6 +711,13 @@ func shrink(ts *treeSpec, rq reqSpec, sig string, evalf evaluator) (*treeSpec, r
 			}
 		}
 	}
+	for k := len(cur.Extra) - 1; k >= 0; k-- {
+		t2 := cloneTree(cur)
+		t2.Extra = append(t2.Extra[:k:k], t2.Extra[k+1:]...)
+		if has(t2, rq) {
+			cur = t2
+		}
+	}
 	// simplify flags
 	for i := range cur.Apps {
 		if cur.Apps[i].Mw && !(rq.Plan.App == i && (rq.Plan.Pos == posMwPre || rq.Plan.Pos == posMwPost)) {
@@ -650,6 +741,8 @@ func shrink(ts *treeSpec, rq reqSpec, sig string, evalf evaluator) (*treeSpec, r
 func cloneTree(ts *treeSpec) *treeSpec {
 	c := *ts
 	c.Apps = append([]appSpec(nil), ts.Apps...)
+	c.Extra = append([]extraMount(nil), ts.Extra...)
+	c.pl = nil
 	return &c
 }
 
@@ -664,6 +757,20 @@ func removeApp(ts *treeSpec, rq reqSpec, i int) (*treeSpec, reqSpec, bool) {
 			c.Apps[j].Parent--
 		}
 	}
+	kept := c.Extra[:0]
+	for _, x := range c.Extra {
+		if x.App == i || x.Parent == i {
+			continue
+		}
+		if x.App > i {
+			x.App--
+		}
+		if x.Parent > i {
+			x.Parent--
+		}
+		kept = append(kept, x)
+	}
+	c.Extra = kept
 	if rq.Plan.App > i {
 		rq.Plan.App--
 	}
@@ -716,11 +823,17 @@ func (rn *runner) judgeTree(c *ev.Case, ts *treeSpec, reqs []reqSpec) map[string
 				switch {
 				case id == idDefault:
 					e.Stat("handled_by_default_handler", int64(n))
+					if el := ts.expected(rq.Path, false); el > 0 && ts.Apps[el].Handler == hExplicitDefault {
+						e.Stat("errors_under_explicit_default_handler_app", 1)
+					}
 				case ts.Apps[id].Handler == hOK:
 					e.Stat("handled_by_recording_handler", int64(n))
 				default:
 					e.Stat("handled_by_failing_handler", int64(n))
 				}
+			}
+			if el := ts.expected(rq.Path, false); el > 0 && len(ts.places()[el]) > 1 {
+				e.Stat("errors_under_app_mounted_twice", 1)
 			}
 			gen := !strings.HasPrefix(c.ID, "corpus:")
 			if gen {
@@ -733,7 +846,7 @@ func (rn *runner) judgeTree(c *ev.Case, ts *treeSpec, reqs []reqSpec) map[string
 				e.Nontrivial(ts.describe(), rq.Method, rq.Path, strconv.Itoa(rq.Plan.Pos), strconv.Itoa(rq.Plan.App))
 				e.Stat("nontrivial_requests", 1)
 			}
-			if el := ts.expected(rq.Path, false); el > 0 && ts.Apps[el].Full != strings.ToLower(ts.Apps[el].Full) {
+			if el, ep := ts.expectedPlace(rq.Path, false); el > 0 && ep.Full != strings.ToLower(ep.Full) {
 				// the rule selects an app mounted under a prefix with upper-case letters and
 				// the request spells that prefix exactly as mounted
 				e.Stat("errors_under_mixed_case_prefix_spelled_as_mounted", 1)
@@ -767,7 +880,7 @@ func (rn *runner) judgeTree(c *ev.Case, ts *treeSpec, reqs []reqSpec) map[string
 }
 
 func normRoot(ts *treeSpec, id int) int {
-	if id == 0 && ts.Apps[0].Handler == hNone {
+	if id == 0 && !ts.records(0) {
 		return idDefault
 	}
 	return id
@@ -796,6 +909,12 @@ func run(e *ev.Env) {
 		}
 		if ts.StartAt >= 0 {
 			e.Stat("trees_started_during_construction", 1)
+		}
+		if len(ts.Extra) > 0 {
+			e.Stat("trees_app_mounted_twice", 1)
+		}
+		if ts.hasExplicitDefault() {
+			e.Stat("trees_explicit_default_handler", 1)
 		}
 		for i := 1; i < len(ts.Apps); i++ {
 			if ts.Apps[i].Rel == "/" && ts.Apps[i].Parent > 0 {
@@ -1001,6 +1120,59 @@ func corpus(e *ev.Env, rn *runner) {
 		}
 		rn.judgeTree(c, ts, reqs)
 	})
+	// fiber.DefaultErrorHandler named explicitly (directly and through a copied Config) is a
+	// configured handler: errors below such an app are answered by the default handler with
+	// the status of the error, not by the custom handler of the root or of an enclosing app
+	e.Corpus("explicit-default-handler", func(c *ev.Case) {
+		ts := mkTree(hOK,
+			appSpec{Parent: 0, Rel: "/api", Handler: hExplicitDefault, Mw: true},
+			appSpec{Parent: 1, Rel: "/v1", Handler: hNone},
+			appSpec{Parent: 0, Rel: "/web", Handler: hExplicitDefault, CfgCopy: true},
+			appSpec{Parent: 0, Rel: "/adm", Handler: hOK},
+			appSpec{Parent: 4, Rel: "/x", Handler: hExplicitDefault},
+			appSpec{Parent: 5, Rel: "/y", Handler: hOK})
+		var reqs []reqSpec
+		for app, p := range []string{"", "/api", "/api/v1", "/web", "/adm", "/adm/x", "/adm/x/y"} {
+			for k := kFiber; k <= kPredecl; k++ {
+				reqs = append(reqs, get(p+"/e", plan{App: app, Pos: posEp, Kind: k, Code: 409}))
+			}
+			reqs = append(reqs, get(p+"/zz", none), get(p+"/p", none), get(p+"/e", plan{App: 0, Pos: posMwPre, Kind: kFiber, Code: 403}))
+		}
+		rn.judgeTree(c, ts, reqs)
+	})
+	// one app instance mounted at two places (two prefixes of the root; two different parents),
+	// nested apps with own handlers inside it, mounted before and after; errors under each place
+	for _, bottomUp := range []bool{false, true} {
+		name := "app-mounted-twice-outer-first"
+		if bottomUp {
+			name = "app-mounted-twice-inner-first"
+		}
+		e.Corpus(name, func(c *ev.Case) {
+			for _, early := range []bool{true, false} {
+				ts := mkTree(hOK, appSpec{Parent: 0, Rel: "/v1", Handler: hOK}, appSpec{Parent: 1, Rel: "/admin", Handler: hOK},
+					appSpec{Parent: 2, Rel: "/deep", Handler: hFailPlain})
+				ts.BottomUp = bottomUp
+				ts.Extra = []extraMount{{App: 1, Parent: 0, Rel: "/v2", Early: early}}
+				var reqs []reqSpec
+				for _, v := range []string{"/v1", "/v2"} {
+					reqs = append(reqs, get(v+"/e", teapot(1, posEp)), get(v+"/zz", none), get(v+"/admin/e", teapot(2, posEp)),
+						get(v+"/admin/zz", none), get(v+"/admin/deep/e", teapot(3, posEp)), get(v+"/admin/deep/p", none))
+				}
+				rn.judgeTree(c, ts, reqs)
+
+				ts = mkTree(hOK, appSpec{Parent: 0, Rel: "/public", Handler: hNone}, appSpec{Parent: 0, Rel: "/internal", Handler: hOK},
+					appSpec{Parent: 1, Rel: "/api", Handler: hOK}, appSpec{Parent: 3, Rel: "/admin", Handler: hOK})
+				ts.BottomUp = bottomUp
+				ts.Extra = []extraMount{{App: 3, Parent: 2, Rel: "/api", Early: early}}
+				reqs = nil
+				for _, v := range []string{"/public", "/internal"} {
+					reqs = append(reqs, get(v+"/zz", none), get(v+"/api/e", teapot(3, posEp)), get(v+"/api/zz", none),
+						get(v+"/api/admin/e", teapot(4, posEp)), get(v+"/api/admin/zz", none))
+				}
+				rn.judgeTree(c, ts, reqs)
+			}
+		})
+	}
 	// control: disjoint prefixes, nested mounts, every position, every handler mode
 	e.Corpus("control-disjoint", func(c *ev.Case) {
 		ts := mkTree(hOK,
